@@ -90,11 +90,13 @@ def pickErr (e : GoErr) (failfast : Bool) : PickOutcome :=
     | some r => .fail r                                   -- dropError{r}, unwrapped by getTransport
     | none => if !failfast then .again else .fail (.status codeUnavailable)
 
-/-- `newClientStream` on `SelectConfig` returning a non-nil error. -/
+/-- `newClientStream` on `SelectConfig` returning a non-nil error. Since /repo commit 2bdf416 (finding
+    F24) an io.EOF coming out of `toRPCErr` is turned into UNKNOWN:
+    `if err = toRPCErr(err); err == io.EOF { err = status.Error(codes.Unknown, …) }`. -/
 def configSelectorErr (e : GoErr) : GoErr :=
   match a54 e with
   | some r => r
-  | none => toRPCErr e
+  | none => if toRPCErr e = .eof then .status codeUnknown else toRPCErr e
 
 inductive CredsSite | transportCreds | callCreds
 deriving DecidableEq, Repr
@@ -107,6 +109,11 @@ def credsErr (site : CredsSite) (e : GoErr) : GoErr :=
     | none => match site with
       | .transportCreds => .status codeUnauthenticated
       | .callCreds => .status codeInternal))
+
+/-- stream.go `shouldRetry`, branch `cs.numRetries+1 >= rp.MaxAttempts`:
+    `fmt.Errorf("max retries exhausted: failed after %d attempts: %w", n, err)` — the attempt's error
+    wrapped by a plain error. On the SendMsg path `err` is io.EOF (the attempt's stream is already done). -/
+def retryExhausted (e : GoErr) : GoErr := .wrapped e
 
 /-- What the application gets when the pick blocks until the context ends. -/
 def ctxEnd (deadline : Bool) : GoErr := .status (if deadline then codeDeadlineExceeded else codeCanceled)
